@@ -10,19 +10,31 @@ pub const SCALES: [f64; 3] = [1e-3, 1.0, 1e3];
 #[derive(Clone, Debug, Serialize, Deserialize)]
 pub struct Data {
     pub design: String,
-    pub variant: String, // "full_rank" | "const_col=<c>" | "dup_col0"
+    pub variant: String, // "full_rank" | "const_col=<c>" | "dup_col0" | "even_targets"
     pub offsets: Vec<f64>,
     pub scales: Vec<f64>,
     pub x: Vec<Vec<f64>>, // n x p
     pub y: Vec<Vec<f64>>, // n x 3
 }
 
+/// Which per-column (offset, scale) images of a design are enumerated.
+#[derive(Clone, Copy, PartialEq, Debug)]
+pub enum Images {
+    /// not part of the tier
+    Skip,
+    /// the 9 images that apply the same (offset, scale) to every column
+    Same,
+    /// Same + for every column the 8 other pairs with the remaining columns at (0, 1): 9 + 8p
+    PerColumn,
+    /// the full 9^p cross product
+    Cross,
+}
+
 pub struct Design {
     pub id: &'static str,
     pub pts: Vec<Vec<i64>>,
-    pub quick: bool,
-    /// thorough: full 9^p cross product of per-column images (p = 2 only)
-    pub cross: bool,
+    pub quick: Images,
+    pub thorough: Images,
 }
 
 fn full_factorial(levels: &[usize], reps: usize) -> Vec<Vec<i64>> {
@@ -36,65 +48,61 @@ fn full_factorial(levels: &[usize], reps: usize) -> Vec<Vec<i64>> {
 }
 
 pub fn designs() -> Vec<Design> {
-    let d = |id: &'static str, pts: Vec<Vec<i64>>, quick: bool, cross: bool| Design { id, pts, quick, cross };
+    use Images::*;
+    let d = |id: &'static str, pts: Vec<Vec<i64>>, quick: Images, thorough: Images| Design { id, pts, quick, thorough };
     let col = |v: &[i64]| -> Vec<Vec<i64>> { v.iter().map(|&a| vec![a]).collect() };
     vec![
         // ---- p = 1
-        d("p1_n4_levels4", col(&[0, 1, 2, 3]), true, false),
-        d("p1_n4_2levels_x2", col(&[0, 0, 1, 1]), false, false),
-        d("p1_n6_levels6", col(&[0, 1, 2, 3, 4, 5]), false, false),
-        d("p1_n6_3levels_x2", col(&[0, 0, 1, 1, 2, 2]), true, false),
-        d("p1_n6_unbalanced", col(&[0, 0, 0, 1, 2, 5]), true, false),
-        d("p1_n9_levels9", col(&[0, 1, 2, 3, 4, 5, 6, 7, 8]), false, false),
-        d("p1_n9_3levels_x3", col(&[0, 0, 0, 1, 1, 1, 2, 2, 2]), false, false),
-        d("p1_n12_levels12", col(&[0, 1, 2, 3, 4, 5, 6, 7, 8, 9, 10, 11]), false, false),
-        d("p1_n12_4levels_x3", col(&[0, 0, 0, 1, 1, 1, 2, 2, 2, 3, 3, 3]), false, false),
+        d("p1_n4_levels4", col(&[0, 1, 2, 3]), Cross, Cross),
+        d("p1_n4_2levels_x2", col(&[0, 0, 1, 1]), Skip, Cross),
+        d("p1_n6_levels6", col(&[0, 1, 2, 3, 4, 5]), Skip, Cross),
+        d("p1_n6_3levels_x2", col(&[0, 0, 1, 1, 2, 2]), Cross, Cross),
+        d("p1_n6_unbalanced", col(&[0, 0, 0, 1, 2, 5]), Skip, Cross),
+        d("p1_n9_levels9", col(&[0, 1, 2, 3, 4, 5, 6, 7, 8]), Skip, Cross),
+        d("p1_n9_3levels_x3", col(&[0, 0, 0, 1, 1, 1, 2, 2, 2]), Skip, Cross),
+        d("p1_n12_levels12", col(&[0, 1, 2, 3, 4, 5, 6, 7, 8, 9, 10, 11]), Skip, Cross),
+        d("p1_n12_4levels_x3", col(&[0, 0, 0, 1, 1, 1, 2, 2, 2, 3, 3, 3]), Skip, Cross),
         // ---- p = 2, full factorial
-        d("p2_n4_ff2x2", full_factorial(&[2, 2], 1), true, true),
-        d("p2_n6_ff2x3", full_factorial(&[2, 3], 1), true, true),
-        d("p2_n9_ff3x3", full_factorial(&[3, 3], 1), false, true),
-        d("p2_n12_ff3x4", full_factorial(&[3, 4], 1), false, false),
-        d("p2_n12_ff2x2_x3", full_factorial(&[2, 2], 3), false, false),
-        d("p2_n12_ff2x6", full_factorial(&[2, 6], 1), false, false),
+        d("p2_n4_ff2x2", full_factorial(&[2, 2], 1), Skip, PerColumn),
+        d("p2_n6_ff2x3", full_factorial(&[2, 3], 1), PerColumn, PerColumn),
+        d("p2_n9_ff3x3", full_factorial(&[3, 3], 1), Skip, PerColumn),
+        d("p2_n12_ff3x4", full_factorial(&[3, 4], 1), Skip, Same),
+        d("p2_n12_ff2x2_x3", full_factorial(&[2, 2], 3), Skip, Same),
+        d("p2_n12_ff2x6", full_factorial(&[2, 6], 1), Skip, Same),
         // ---- p = 2, fractions of the 3x3 / 4x4 lattice (correlated columns)
-        d("p2_n4_frac3x3_diagonal_plus_corner", vec![vec![0, 0], vec![1, 1], vec![2, 2], vec![0, 2]], false, true),
-        d("p2_n6_frac3x3_lower_triangle", vec![vec![0, 0], vec![0, 1], vec![0, 2], vec![1, 0], vec![1, 1], vec![2, 0]], true, true),
+        d("p2_n4_frac3x3_diagonal_plus_corner", vec![vec![0, 0], vec![1, 1], vec![2, 2], vec![0, 2]], Skip, Same),
+        d("p2_n6_frac3x3_lower_triangle", vec![vec![0, 0], vec![0, 1], vec![0, 2], vec![1, 0], vec![1, 1], vec![2, 0]], PerColumn, PerColumn),
         d(
             "p2_n9_frac4x4_band",
             vec![vec![0, 0], vec![0, 1], vec![1, 0], vec![1, 1], vec![1, 2], vec![2, 1], vec![2, 2], vec![2, 3], vec![3, 2]],
-            false,
-            false,
-        ),
+            Skip, Same),
         d(
             "p2_n12_frac4x4_without_antidiagonal",
             en::grid(&[4, 4]).into_iter().filter(|g| g[0] + g[1] != 3).map(|g| g.iter().map(|&v| v as i64).collect()).collect(),
-            false,
-            false,
-        ),
+            Skip, Same),
         // ---- p = 3
-        d("p3_n4_frac2x2x2_half", vec![vec![0, 0, 0], vec![1, 1, 0], vec![1, 0, 1], vec![0, 1, 1]], true, false),
+        d("p3_n4_frac2x2x2_half", vec![vec![0, 0, 0], vec![1, 1, 0], vec![1, 0, 1], vec![0, 1, 1]], Skip, Same),
         d(
             "p3_n6_frac2x2x2_without_two_corners",
             en::grid(&[2, 2, 2]).into_iter().filter(|g| !(g[0] == g[1] && g[1] == g[2])).map(|g| g.iter().map(|&v| v as i64).collect()).collect(),
-            false,
-            false,
-        ),
+            Skip, Same),
         d(
             "p3_n9_frac3x3x3_latin_square",
             en::grid(&[3, 3]).into_iter().map(|g| vec![g[0] as i64, g[1] as i64, ((g[0] + g[1]) % 3) as i64]).collect(),
-            true,
-            false,
-        ),
-        d("p3_n12_ff2x2x3", full_factorial(&[2, 2, 3], 1), false, false),
-        d("p3_n12_frac2x3x4_cyclic", (0..12).map(|i| vec![i % 2, i % 3, i % 4]).collect(), false, false),
+            Same, PerColumn),
+        d("p3_n12_ff2x2x3", full_factorial(&[2, 2, 3], 1), Skip, Same),
+        d("p3_n12_frac2x3x4_cyclic", (0..12).map(|i| vec![i % 2, i % 3, i % 4]).collect(), Skip, Same),
     ]
 }
 
 /// Per-column (offset, scale) images: every column sees every pair.
-pub fn images(p: usize, cross: bool) -> Vec<(Vec<f64>, Vec<f64>)> {
+pub fn images(p: usize, mode: Images) -> Vec<(Vec<f64>, Vec<f64>)> {
     let pairs: Vec<(f64, f64)> = OFFSETS.iter().flat_map(|&o| SCALES.iter().map(move |&s| (o, s))).collect();
     let mut out: Vec<(Vec<f64>, Vec<f64>)> = Vec::new();
-    if p == 1 || cross {
+    if mode == Images::Skip {
+        return out;
+    }
+    if p == 1 || mode == Images::Cross {
         for seq in en::sequences(p, pairs.len()) {
             out.push((seq.iter().map(|&k| pairs[k].0).collect(), seq.iter().map(|&k| pairs[k].1).collect()));
         }
@@ -102,6 +110,9 @@ pub fn images(p: usize, cross: bool) -> Vec<(Vec<f64>, Vec<f64>)> {
     }
     for &(o, s) in &pairs {
         out.push((vec![o; p], vec![s; p]));
+    }
+    if mode == Images::Same {
+        return out;
     }
     for j in 0..p {
         for &(o, s) in &pairs {
@@ -143,22 +154,33 @@ fn targets(z: &[Vec<f64>]) -> Vec<Vec<f64>> {
 pub fn enumerate(thorough: bool) -> Vec<Data> {
     let mut out = Vec::new();
     for d in designs() {
-        if !thorough && !d.quick {
+        let mode = if thorough { d.thorough } else { d.quick };
+        if mode == Images::Skip {
             continue;
         }
         let p = d.pts[0].len();
         let z = centred(&d.pts);
         let y = targets(&z);
-        for (os, ss) in images(p, thorough && d.cross && p == 2) {
+        for (os, ss) in images(p, mode) {
             let x: Vec<Vec<f64>> = z.iter().map(|r| (0..p).map(|j| q((r[j] + os[j]) * ss[j])).collect()).collect();
             out.push(Data { design: d.id.to_string(), variant: "full_rank".into(), offsets: os.clone(), scales: ss.clone(), x, y: y.clone() });
         }
+        // targets that are an even function of column 0 (integers): column 0 is EXACTLY orthogonal to every
+        // centred target, i.e. its correlation sits exactly at 0 <= l1 threshold (image (0, 1) only: exact arithmetic)
+        let even = matches!(d.id, "p1_n4_levels4" | "p2_n6_ff2x3") || (thorough && matches!(d.id, "p1_n6_3levels_x2" | "p2_n9_ff3x3"));
+        if even {
+            const C: [f64; 3] = [1.0, -2.0, 3.0];
+            const K: [f64; 3] = [1.0, 2.0, -1.0];
+            const L: [f64; 3] = [3.0, -1.0, 2.0];
+            let ye: Vec<Vec<f64>> = z.iter().map(|r| (0..3).map(|t| C[t] + K[t] * (2.0 * r[0]) * (2.0 * r[0]) + if p > 1 { L[t] * r[1] } else { 0.0 }).collect()).collect();
+            out.push(Data { design: d.id.to_string(), variant: "even_targets".into(), offsets: vec![0.0; p], scales: vec![1.0; p], x: z.clone(), y: ye });
+        }
         // rank-deficient variants (p <= 2 so that p stays <= 3): same image for all columns
-        let variants = if thorough { d.quick && p <= 2 } else { d.id == "p1_n6_3levels_x2" || d.id == "p2_n4_ff2x2" };
+        let variants = d.id == "p1_n6_3levels_x2" || (thorough && d.id == "p2_n4_ff2x2");
         if variants {
-            for (os, ss) in images(p, false).into_iter().take(9) {
+            for (os, ss) in images(p, Images::Same) {
                 let x: Vec<Vec<f64>> = z.iter().map(|r| (0..p).map(|j| q((r[j] + os[j]) * ss[j])).collect()).collect();
-                for c in [0.0, 1.0, 5000.0] {
+                for c in if thorough { vec![0.0, 1.0, 5000.0] } else { vec![1.0] } {
                     let xc: Vec<Vec<f64>> = x.iter().map(|r| r.iter().cloned().chain(std::iter::once(c)).collect()).collect();
                     out.push(Data { design: d.id.to_string(), variant: format!("const_col={}", c), offsets: os.clone(), scales: ss.clone(), x: xc, y: y.clone() });
                 }
